@@ -703,13 +703,13 @@ theorem Fib.step_spec {cmp : K → K → Int} (hc : LawfulCmp cmp) (eqV : V → 
     | nil => simp
     | cons t ts => simp
 
-theorem Fib.merge_spec {cmp : K → K → Int} (hc : LawfulCmp cmp) (a b : Fib K V)
+theorem Fib.mergeRoots_spec {cmp : K → K → Int} (hc : LawfulCmp cmp) (a b : Fib K V)
     (ha : FInv cmp a) (hb : FInv cmp b) :
-    FInv cmp (a.mergeWith cmp b) ∧ (a.mergeWith cmp b).abs.Perm (a.abs ++ b.abs) := by
+    FInv cmp { n := a.n + b.n, roots := Fib.mergeRoots cmp a.roots b.roots } ∧
+      (nodesF (Fib.mergeRoots cmp a.roots b.roots)).Perm (a.abs ++ b.abs) := by
   cases hra : a.roots with
   | nil =>
-    have e : a.mergeWith cmp b = { n := a.n + b.n, roots := b.roots } := by
-      simp [Fib.mergeWith, hra]
+    have e : Fib.mergeRoots cmp [] b.roots = b.roots := by simp [Fib.mergeRoots]
     rw [e]
     refine ⟨⟨hb.ord, hb.binom, ?_, hb.headMin⟩, by simp [Fib.abs, hra]⟩
     have := ha.n; rw [hra] at this
@@ -717,14 +717,13 @@ theorem Fib.merge_spec {cmp : K → K → Int} (hc : LawfulCmp cmp) (a b : Fib K
   | cons x r1 =>
     cases hrb : b.roots with
     | nil =>
-      have e : a.mergeWith cmp b = { n := a.n + b.n, roots := a.roots } := by
-        simp [Fib.mergeWith, hra, hrb]
+      have e : Fib.mergeRoots cmp (x :: r1) [] = x :: r1 := by simp [Fib.mergeRoots]
       rw [e]
-      refine ⟨⟨ha.ord, ha.binom, ?_, ha.headMin⟩, by simp [Fib.abs, hrb]⟩
-      have h2 := hb.n; rw [hrb] at h2
-      simp only [ha.n, h2]; simp
+      refine ⟨⟨hra ▸ ha.ord, hra ▸ ha.binom, ?_, hra ▸ ha.headMin⟩, by simp [Fib.abs, hra, hrb]⟩
+      have h1 := ha.n; have h2 := hb.n; rw [hra] at h1; rw [hrb] at h2
+      simp only [h1, h2]; simp
     | cons y r2 =>
-      simp only [Fib.mergeWith, Fib.abs, hra, hrb]
+      simp only [Fib.mergeRoots, Fib.abs, hra, hrb]
       have hoa := ha.ord; have hob := hb.ord; have hba := ha.binom; have hbb := hb.binom
       have hna := ha.n; have hnb := hb.n
       rw [hra] at hoa hba hna; rw [hrb] at hob hbb hnb
@@ -774,6 +773,16 @@ theorem Fib.merge_spec {cmp : K → K → Int} (hc : LawfulCmp cmp) (a b : Fib K
           · exact hmb t (List.mem_cons_of_mem _ ht)
         · simp only [nodesF_append, nodesF_cons]; c04_perm
 
+theorem Fib.merge_spec {cmp : K → K → Int} (hc : LawfulCmp cmp) (a b : Fib K V)
+    (ha : FInv cmp a) (hb : FInv cmp b) :
+    FInv cmp (a.mergeWith cmp b).1 ∧ FInv cmp (a.mergeWith cmp b).2 ∧
+      (a.mergeWith cmp b).1.abs.Perm (a.abs ++ b.abs) ∧ (a.mergeWith cmp b).2.abs = [] := by
+  obtain ⟨h1, h2⟩ := Fib.mergeRoots_spec hc a b ha hb
+  refine ⟨h1, ?_, h2, by simp [Fib.mergeWith, Fib.abs]⟩
+  refine ⟨OrdAll_nil cmp, ?_, by simp [Fib.mergeWith], ?_⟩
+  · intro t ht; cases ht
+  · intro e r h; cases h
+
 /-- the Fibonacci heap Model refines the multiset Spec -/
 def fibRefines {cmp : K → K → Int} (hc : LawfulCmp cmp) (eqV : V → V → Bool) :
     Refines (fibImpl cmp eqV) cmp eqV where
@@ -786,6 +795,8 @@ def fibRefines {cmp : K → K → Int} (hc : LawfulCmp cmp) (eqV : V → V → B
     · intro e r h; cases h
   init_abs := by simp [fibImpl, Fib.new, Fib.abs]
   step_ok := fun s op hs => Fib.step_spec hc eqV s hs op
-  merge_ok := fun a b ha hb => ⟨_, rfl, (Fib.merge_spec hc a b ha hb).1, (Fib.merge_spec hc a b ha hb).2⟩
+  merge_ok := fun a b ha hb =>
+    have h := Fib.merge_spec hc a b ha hb
+    ⟨_, _, rfl, h.1, h.2.1, h.2.2.1, h.2.2.2⟩
 
 end AlgoVerif.C04
